@@ -175,6 +175,11 @@ impl Layout {
         Ok(())
     }
 
+    /// True while extents freed since the last flush wait to become reusable.
+    pub fn has_pending_holes(&self) -> bool {
+        !self.pending_holes.is_empty()
+    }
+
     pub fn get_hole(&self, start: usize) -> Option<usize> {
         self.start_to_hole.get(&start).copied()
     }
